@@ -48,8 +48,9 @@ func runRace(e *ev.Env) {
 			return true, v.(*atomic.Int32).CompareAndSwap(-1, int32(client))
 		}
 		conf := fsess.Config{
-			KeyLookup:   cfg.Source + ":" + cfg.Name,
-			IdleTimeout: cfg.Idle,
+			KeyLookup:    cfg.Source + ":" + cfg.Name,
+			IdleTimeout:  cfg.Idle,
+			ErrorHandler: quietErrorHandler,
 			KeyGenerator: func() string {
 				n := int(ctr.Add(1))
 				id := styledID(cfg.IDs, n, tag)
